@@ -1426,7 +1426,8 @@ class Run:
         if self.cfg.get("expunge_midtxn") and self.txn_flushed and a2 % 2:
             # an object without relationships is expunged in the middle of a transaction that has flushed changes of it (the object is
             # then let go of by the application); the session must not keep or re-acquire it, whatever the transaction does next
-            e = self.pick(a1, lambda e: e["cls"] == "K" and OS.state_of(e["obj"]) == "persistent" and self.in_session(e["obj"])
+            # (also an object the transaction has flushed as deleted: it is expunged from the 'deleted' state)
+            e = self.pick(a1, lambda e: e["cls"] == "K" and OS.state_of(e["obj"]) in ("persistent", "deleted") and self.in_session(e["obj"])
                           and e["obj"] not in self.session.deleted and self.k_referrers_ok(e["obj"], False))
             if e is None:
                 return "skip"
